@@ -488,6 +488,40 @@ def h02c(c):
     c.ob("chunks-cover-all", pos == m)
     c.cover("chunks")
 
+def h02e(c, N=4):
+    """delivery stage of the simulation: up to N accepted requests queued as separate packages (real Market.place_order -> real
+    FlumineSimulation.process_order_package), each package due or not yet due (symbolic choice), then ONE pass of the real
+    FlumineSimulation._check_pending_packages: every due package is handed to the execution layer exactly once, in request order,
+    and exactly the packages not yet due stay queued, in order"""
+    with cm.config_set(simulated=True):
+        fl, (client,), (strategy,) = cm.new_sim()
+        market = cm.add_market(fl, cm.book([cm.runner(1), cm.runner(2)], version=7))
+        n = c.choose("n_packages", list(range(1, N + 1)))
+        with c.guard("place"):
+            for i in range(n):
+                market.place_order(cm.mk_limit(strategy, "BACK", 2.0, 5.0), force=True)
+        queue = list(fl.handler_queue)
+        c.ob("accepted.queued-once-each", len(queue) == n)
+        due = []
+        for i, pkg in enumerate(queue):
+            d = c.choose("due%d" % i, [True, False])
+            pkg.simulated_delay = -1.0 if d else 1e9
+            if d:
+                due.append(pkg)
+        c.tag("n", n); c.tag("due", "".join("D" if p in due else "-" for p in queue))
+        delivered = []
+        client.execution.handler = delivered.append
+        with c.guard("_check_pending_packages"):
+            fl._check_pending_packages(cm.MID)
+        c.ob("delivery.every-due-package-exactly-once-in-request-order", len(delivered) == len(due) and all(a is b for a, b in zip(delivered, due)),
+             delivered=len(delivered), due=len(due))
+        rest = [p for p in queue if p not in due]
+        left = list(fl.handler_queue)
+        c.ob("delivery.only-packages-not-yet-due-stay-queued", len(left) == len(rest) and all(a is b for a, b in zip(left, rest)), left=len(left), expected=len(rest))
+        if len(due) >= 2:
+            c.cover("several-due-in-one-pass")
+        c.cover("delivered")
+
 
 OUT = ["Betdaq: market-status validation is not implemented by flumine (marked todo) and is not a refusal source in H02a-betdaq", "N > 3 (thorough 4) requests per transaction combined with real objects: composition of H02b and H02c is an argument, not a query"]
 HARNESSES = [
@@ -496,6 +530,7 @@ HARNESSES = [
     Harness("H02a-betdaq", h02a_betdaq, pattern="P2 inductive step", requires=["refused", "accepted"], outside=OUT, selfcheck=False),
     Harness("H02b", h02b, quick=dict(N=3), thorough=dict(N=4), pattern="P3 bounded history", requires=["batched", "explicit-execute", "several-packages", "rejected-inside-batch"], outside=OUT,
             max_paths=(300000, 3000000), wall_s=(300, 3000)),
+    Harness("H02e", h02e, quick=dict(N=4), thorough=dict(N=6), pattern="P1 kernel (real _check_pending_packages, due-ness of each package a choice)", requires=["delivered", "several-due-in-one-pass"], outside=OUT, selfcheck=False),
     Harness("H02d", h02d, pattern="exhaustive choice product at the real limits (structural)", requires=["over-limit-batch"], outside=OUT, selfcheck=False),
     Harness("H02c", h02c, pattern="P1 kernel (symbolic length)", requires=["chunks"], outside=OUT),
 ]
